@@ -5,6 +5,7 @@
    and of the nasType text getters / accessors (tied to the compiled code by the correspondence run), and the
    independent specification C12/Spec.v (TS 24.501 9.11.3.4, TS 24.008 10.5.1.3, TS 23.003).
    Model function results: Ok v | Err (the Go error result) | Panic (run-time panic). *)
+From NV Require C19.Globals.
 From NV Require Import Lib.Base C12.GoStd C12.Model C12.Spec C12.Proofs.
 Open Scope N_scope.
 
@@ -355,6 +356,14 @@ Example C12_F9_witness :
   MI_GetSUCI [1; 2; 248; 57; 240; 255; 0; 0] = Panic /\ SuciToStringWithError [1; 2; 248; 57; 240; 255; 0; 0] = Err.
 Proof. split; vm_compute; reflexivity. Qed.
 
+(* the functions this property is about are functions of their arguments: the files it is anchored in declare
+   no package-level variable other than the pinned read-only tables (or a never-touched one of plain type) and
+   none of their functions writes, slices, takes the address of, passes on or calls a method of a
+   package-level variable (logger entries excepted) -- evaluated on the current source (C19/Globals.v) *)
+Theorem C12_anchor_files_keep_no_state :
+  Globals.hidden_state_free Globals.anchors_C12 = true.
+Proof. vm_compute. reflexivity. Qed.
+
 Print Assumptions C12_plmn_wire.
 Print Assumptions C12_plmn_text.
 Print Assumptions C12_plmn_roundtrip.
@@ -421,3 +430,4 @@ Print Assumptions C12_total_GetIMEI_partial.
 Print Assumptions C12_total_GetIMEI_refuted.
 Print Assumptions C12_total_GetIMEISV_partial.
 Print Assumptions C12_total_GetIMEISV_refuted.
+Print Assumptions C12_anchor_files_keep_no_state.
